@@ -642,7 +642,15 @@ fn plan(lay: &Layout, orig: &[u8], rng: &mut Rng, thorough: bool) -> Vec<Mutn> {
             let last = lay.spans.iter().filter(|s| s.sub == "applied_seq").count();
             if wal_records_seen != 1 && wal_records_seen != last && !(sp.sub.ends_with("_seq") && rng.chance(1, 4)) { continue; }
         }
-        let (k, p01) = if thorough { (n, 1) } else { samples(sp) };
+        let (k, p01) = if thorough {
+            // thorough: every byte of the header fields, the footer and the WAL record headers; dense samples elsewhere
+            let cap = match (sp.region.as_str(), sp.sub.as_str()) {
+                ("header", "padding") => 24, ("header", _) => n, ("footer", _) => n,
+                ("wal", "slack") => 24, ("wal", x) if x.ends_with("_payload") => 12, ("wal", _) => n,
+                ("toc", _) => 700, ("payload", _) => 48, ("index", _) => 48, _ => 8,
+            };
+            (cap, 1)
+        } else { samples(sp) };
         let mut offs: Vec<usize> = if k >= n { (sp.start..sp.end).collect() } else {
             let mut o = vec![sp.start, sp.end - 1];
             for _ in 0..k { o.push(rng.usize(sp.start, sp.end - 1)); }
@@ -684,7 +692,7 @@ fn plan(lay: &Layout, orig: &[u8], rng: &mut Rng, thorough: bool) -> Vec<Mutn> {
 }
 
 /// hand-written corpus: the witnesses of every mechanism (located through the layout)
-fn corpus(lay: &Layout) -> Vec<Mutn> {
+fn corpus(lay: &Layout, orig: &[u8]) -> Vec<Mutn> {
     let mut v = Vec::new();
     let first = |r: &str, s: &str| lay.spans.iter().find(|x| x.region == r && x.sub == s).map(|x| x.start);
     if let Some(o) = first("payload", "plain_doc") { v.push(Mutn::Xor(o + 11, 0x01)); }       // (a) the probe's witness
@@ -697,6 +705,16 @@ fn corpus(lay: &Layout) -> Vec<Mutn> {
     if let Some(o) = first("index", "sketch") { v.push(Mutn::Xor(o + 93237 - 93144, 0xFF)); }
     if let Some(o) = first("index", "tantivy") { v.push(Mutn::Xor(o, 0x01)); }
     if let Some(o) = first("index", "memories") { v.push(Mutn::Xor(o + 5, 0x01)); }
+    // a Tantivy segment descriptor inside the TOC: byte 1 of the `bytes_length` of the last segment (its end moves past
+    // the TOC offset → align_footer_with_catalog rewrites TOC + footer during a writable open)
+    if let Some(seg) = lay.toc.segment_catalog.tantivy_segments.last() {
+        let mut pat = seg.common.bytes_offset.to_le_bytes().to_vec();
+        pat.extend_from_slice(&seg.common.bytes_length.to_le_bytes());
+        let toc_end = lay.len - FOOTER_SIZE;
+        if let Some(i) = (lay.toc_off..toc_end.saturating_sub(16)).rev().find(|&i| orig[i..i + 16] == pat[..]) {
+            v.push(Mutn::Xor(i + 9, 0xFF));
+        }
+    }
     v.push(Mutn::Xor(lay.toc_off + 40, 0x01));
     v.push(Mutn::Xor(lay.len - FOOTER_SIZE + 20, 0x01));
     v.push(Mutn::Trunc(lay.len - 1));
@@ -913,7 +931,8 @@ fn main() {
     let mut sum = Summary::new("C20", &args,
         "committed closed .mv2 files built through the API (binary Plain payload, zstd text, chunked document, two embedded frames, \
          memory card; two commits; ~110 KiB incl. the 64 KiB WAL region) corrupted by single-byte XOR 0xFF / 0x01 at every header and \
-         footer byte and at sampled positions of every other span (quick) or every byte (thorough), zeroed spans, truncations at region \
+         footer byte and at sampled positions of every other span (quick: 1-14 per span; thorough: 3 files, every byte of header fields, \
+         footer and WAL record headers, 48 positions per payload / index span, 700 in the TOC), zeroed spans, truncations at region \
          boundaries ±1; each corrupted copy handled in a child process (verify(deep), open_read_only + all reads, open + all reads); \
          non-trivial = not classified harmless; distinct = region/sub + mutation kind + offset + class");
     sum.expect_branches(&["class-detected", "class-harmless", "region-header", "region-wal", "region-payload", "region-index", "region-toc", "region-footer"]);
@@ -980,7 +999,7 @@ fn main() {
             sum.finish(&args);
         }
         let mut rng = Rng::new(args.seed.wrapping_add(si as u64));
-        let mut muts = corpus(&lay);
+        let mut muts = corpus(&lay, &orig);
         for m in plan(&lay, &orig, &mut rng, args.thorough) { if !muts.contains(&m) { muts.push(m); } }
         sum.notes.push(format!("file {si}: {} bytes, {} frames, {} spans, {} corruptions", lay.len, n0, lay.spans.len(), muts.len()));
         run_all(&cx, &muts, dir.path(), jobs, &mut drv, &mut sum);
